@@ -19,9 +19,9 @@ CHECKS = {
  "C17": ("exhaustive enumeration of file sets over a directory alphabet on disk, each loaded by the real analysis.LoadSources (go list); plus the loader-conformance pass binding the in-memory loader of the other checks to the real one",
          "every ordered set of 1..3 files over {., a, ab, abc, ab1, ab2, a/x, ab/x} x {f.go, g.go} x relative/absolute/mixed paths x 5 error cases within the deviation bound (4 quick / complete thorough): package per file, existing ancestor root, errors instead of crashes; 118 (quick) programs of the in-process families loaded through both loaders give byte-identical outputs for analysis + 7 targets",
          "directory names outside the alphabet (spaces, symlinks) not covered", "DESIGN.md §4 C17, §3.4"),
- "C07": ("exhaustive exploration of map iteration orders: every map range of gomacro's analysis and generator packages is rewritten (build overlay, go/types driven) into a choice point; all alternative orders at every executed range, with 1 (quick) / 2 (thorough) order deviations, compared byte for byte with the canonical-order run",
+ "C07": ("exhaustive exploration of map iteration orders: every map range of gomacro's analysis and generator packages is rewritten (build overlay, go/types driven) into a choice point; all alternative orders at every executed range, with 1 (quick) / 2 (thorough) order deviations, compared byte for byte with the canonical-order run; plus stateless model checking of the CLI's configuration mode (Config.run) under a cooperative scheduler: every goroutine schedule within 1 / 2 deviations must write the files of the canonical schedule",
          "389 programs (all families, <= 1 deviation) x analysis + 7 targets (+ typescript/api for route files): every output file and the file set are identical under every explored order; all n! orders for n <= 4 keys, reversal / rotations / adjacent transpositions / move-to-fronts above",
-         "map iteration is the only nondeterminism before saveOutputs; cmd/gomacro.go (package main) is not driven; programs that crash a generator (known finding) are left out", "DESIGN.md §4 C07, §8.2"),
+         "library pass: map iteration is the only nondeterminism before saveOutputs; the CLI is driven on one two-file module (dart + typescript/types) with all tools missing; programs that crash a generator (known finding) are left out", "DESIGN.md §4 C07, §8.2"),
  "C20": ("stateless model checking of the implementation: all schedules of the lock / exec / spawn points of N concurrent FormatFile calls under a cooperative scheduler (verifhook overlay), bounded by the number of deviations from run-to-completion; x all tool environments",
          "N=2 unbounded and N=3 with <= 2 (quick) / N=3 <= 4, N=4 <= 2 (thorough) deviations, for every multiset of formats and every assignment of {installed, missing, failing} to the tools involved: probe at most once per cache, exactly one run per request, missing tool => nil and untouched file, failing run => error, no deadlock, no panic; each failing schedule is replayed before it is believed",
          "data races are decided by a separate free-running pass of the same harness body built with -race and stand-in tools on PATH (sampling, reported separately in the evidence); scheduling points only at Lock and command start", "DESIGN.md §4 C20, §8.3"),
